@@ -1,4 +1,4 @@
-import sys; sys.path.insert(0,'/tmp/fixes'); from edit import rep
+import sys; sys.path.insert(0,'/verif/tools'); from edit import rep
 # two-colour shortcut only if all dark types share one colour and all light types the other
 rep('segno/writers.py', """    if number_of_colors > 2:
         # Need the more expensive matrix iterator""", """    is_two_tone = len({clr_map[mt] for mt in clr_map if mt >> 8}) == 1 \\
